@@ -33,14 +33,14 @@ type simTopic struct {
 }
 
 type SimNet struct {
-	mu     sync.Mutex
-	cond   *sync.Cond
-	ids    []peer.ID
-	up     [][]bool                 // link state (mirrors BlockNet.link)
-	topics []map[string]*simTopic   // per peer: topic name -> subscription
-	sent   []*Msg                   // every message sent so far
-	emit   []iface.DirectChannelEmitter // per peer: the instance's payload emitter
-	publishToNobody bool            // when true Peers() reports peers even if none (not used)
+	mu              sync.Mutex
+	cond            *sync.Cond
+	ids             []peer.ID
+	up              [][]bool                     // link state (mirrors BlockNet.link)
+	topics          []map[string]*simTopic       // per peer: topic name -> subscription
+	sent            []*Msg                       // every message sent so far
+	emit            []iface.DirectChannelEmitter // per peer: the instance's payload emitter
+	publishToNobody bool                         // when true Peers() reports peers even if none (not used)
 }
 
 func NewSimNet(ids []peer.ID) *SimNet {
@@ -246,7 +246,7 @@ func (d *simDC) Send(ctx context.Context, to peer.ID, payload []byte) error {
 	return nil
 }
 func (d *simDC) Connect(context.Context, peer.ID) error { return nil }
-func (d *simDC) Close() error                          { return nil }
+func (d *simDC) Close() error                           { return nil }
 
 func (n *SimNet) dcFactory(p int) iface.DirectChannelFactory {
 	return func(ctx context.Context, e iface.DirectChannelEmitter, o *iface.DirectChannelOptions) (iface.DirectChannel, error) {
